@@ -58,15 +58,29 @@ def dec_U(u):
 
 
 def build_prog(sf, desc):
+    """desc ops: cls, regs, pars | U, optional dagger / select / dark (MeasureFock).  With desc['share'] equal operations
+    are ONE shared instance (as users who write `s = S2gate(1); s | ...; s | ...` produce them)."""
     import strawberryfields.ops as ops
     p = sf.Program(desc["n"])
+    cache = {}
     with p.context as q:
         for o in desc["ops"]:
+            if o["cls"] == "Del":
+                ops.Del | tuple(q[r] for r in o["regs"])
+                continue
             cls = getattr(ops, o["cls"])
-            if o["cls"] == "Interferometer":
-                op = cls(dec_U(o["U"]))
-            else:
-                op = cls(*o.get("pars", []))
+            key = repr((o["cls"], o.get("pars"), o.get("U"), o.get("dagger"), o.get("select"), o.get("dark")))
+            op = cache.get(key) if desc.get("share") else None
+            if op is None:
+                if o["cls"] == "Interferometer":
+                    op = cls(dec_U(o["U"]))
+                elif o["cls"] == "MeasureFock":
+                    op = cls(select=o.get("select"), dark_counts=o.get("dark"))
+                else:
+                    op = cls(*o.get("pars", []))
+                if o.get("dagger"):
+                    op = op.H
+                cache[key] = op
             op | tuple(q[r] for r in o["regs"])
     return p
 
@@ -76,9 +90,10 @@ def desc_from_skeleton(n, skel):
 
 
 def ref_state(n, oplist):
-    """independent Gaussian reference: oplist of (cls, modes, pars|U)"""
+    """independent Gaussian reference: oplist of (cls, modes, pars|U[, dagger])"""
     st = sim.RefState(n)
-    for cls, modes, pars in oplist:
+    for item in oplist:
+        cls, modes, pars = item[0], item[1], item[2]
         if cls.startswith("Measure"):
             continue
         if cls == "Interferometer":
@@ -86,15 +101,17 @@ def ref_state(n, oplist):
             S = np.block([[U.real, -U.imag], [U.imag, U.real]])
         else:
             S, _ = sim.gate_symplectic(cls, [float(x) for x in pars])
+        if len(item) > 3 and item[3]:
+            S = np.linalg.inv(S)
         st.apply_SYd(list(modes), S)
     return st
 
 
 def desc_oplist(desc):
-    return [(o["cls"], o["regs"], dec_U(o["U"]) if o["cls"] == "Interferometer" else o.get("pars", [])) for o in desc["ops"]]
+    return [(o["cls"] if o["cls"] != "Del" else "MeasureDel", o["regs"], dec_U(o["U"]) if o["cls"] == "Interferometer" else o.get("pars", []), bool(o.get("dagger")))
+            for o in desc["ops"]]
 
 
-# ====================================================================== generators (X series)
 def dy(rng, lo, hi, den=8):
     return rng.randint(int(lo * den), int(hi * den)) / den
 
@@ -213,19 +230,56 @@ def gen_x_source(rng, nprng, N, comp, amps):
     elif ik == "mix":
         ops_.append(dict(cls="BSgate", regs=[0, N], pars=[0.5, 0.0]))
     kind.append(ik)
+    # ---- inverse flags (S2gate(r).H = S2gate(-r), ...): on single squeezers, inside repeated groups, on the interferometer
+    if rng.random() < 0.22:
+        cand = [i for i, o in enumerate(ops_) if o["cls"] in ("S2gate", "Rgate", "BSgate", "MZgate", "Interferometer", "Sgate")]
+        if cand:
+            i = rng.choice(cand)
+            ops_[i]["dagger"] = True
+            # keep the two halves equal: the mirrored partner of an interferometer gate is inverted as well
+            if ops_[i]["cls"] != "S2gate" and ops_[i]["cls"] != "Sgate":
+                for j, o in enumerate(ops_):
+                    if j != i and o["cls"] == ops_[i]["cls"] and o.get("pars") == ops_[i].get("pars") and o.get("U") == ops_[i].get("U") \
+                            and sorted(o["regs"]) in ([r + N for r in sorted(ops_[i]["regs"])], [r - N for r in sorted(ops_[i]["regs"])]):
+                        o["dagger"] = True
+                        break
+            kind.append("dagger:" + ops_[i]["cls"])
+    if rng.random() < 0.03:
+        cand = [o for o in ops_ if o["cls"] == "S2gate"]
+        if cand:
+            o = rng.choice(cand)
+            o["regs"] = o["regs"][::-1]
+            kind.append("revpair")
     # ---- measurement
     mk = rng.choice(["all", "all", "all", "split", "partial"])
     if mk == "partial" and rng.random() < 0.7:
         mk = "all"
+    order_ = list(range(n))
+    if rng.random() < 0.35:
+        rng.shuffle(order_)
+        kind.append("meas-order")
+    opt = rng.choice([None] * 8 + ["select", "select-part", "dark", "dark-part"])
+    sel = {m: rng.randint(0, 2) for m in range(n)}
+    dk = {m: rng.choice([0.0, 0.125]) for m in range(n)}
+
+    def M(regs, first=True):
+        d = dict(cls="MeasureFock", regs=regs, pars=[])
+        if opt == "select" or (opt == "select-part" and first):
+            d["select"] = [sel[m] for m in regs]
+        if opt == "dark" or (opt == "dark-part" and first):
+            d["dark"] = [dk[m] for m in regs]
+        return d
     if mk == "all":
-        ops_.append(dict(cls="MeasureFock", regs=list(range(n)), pars=[]))
+        ops_.append(M(order_))
     elif mk == "split":
         c = rng.randint(1, n - 1)
-        ops_.append(dict(cls="MeasureFock", regs=list(range(c)), pars=[]))
-        ops_.append(dict(cls="MeasureFock", regs=list(range(c, n)), pars=[]))
+        ops_.append(M(order_[:c]))
+        ops_.append(M(order_[c:], first=False))
     else:
-        ops_.append(dict(cls="MeasureFock", regs=list(range(n - 1)), pars=[]))
+        ops_.append(M(order_[:n - 1]))
     kind.append("meas:" + mk)
+    if opt:
+        kind.append("meas-opt:" + opt)
     # ---- order
     order = rng.choice(["natural", "natural", "linext", "swap"])
     if order == "linext":
@@ -234,13 +288,21 @@ def gen_x_source(rng, nprng, N, comp, amps):
         i = rng.randrange(len(ops_) - 2)
         ops_[i], ops_[i + 1] = ops_[i + 1], ops_[i]
     kind.append("order:" + order)
-    return dict(n=n, ops=ops_), kind
+    desc = dict(n=n, ops=ops_)
+    if rng.random() < 0.4:
+        desc["share"] = True
+        kind.append("shared-ops")
+    if rng.random() < 0.03:      # a register with a hole: one more mode, deleted right away
+        desc["n"] = n + 1
+        desc["ops"] = [dict(cls="Del", regs=[n], pars=[])] + desc["ops"]
+        kind.append("del")
+    return desc, kind
 
 
 def gen_strict_source(rng, N, spec, amps):
     """an instance of the layout template, possibly mutated"""
     n = 2 * N
-    gp = spec["gate_parameters"]
+    gp = hw12.x_gate_parameters(N, [0], [0])      # the template parameter names
     vals = {}
     for name, entries in gp.items():
         if name.startswith("squeezing"):
@@ -288,6 +350,8 @@ def gen_x_case(rng, nprng, thorough=False):
     complist = rng.choice([[], [], [comp], ["Xcov"], ["Xunitary", "Xcov"]])
     modes = 2 * N if rng.random() < 0.9 else rng.choice([2 * N + 2, 2 * N - 2])
     case = dict(kind="x", N=N, comp=comp, sq=sqk, ph=phk, complist=complist, modes=modes)
+    if rng.random() < 0.12:        # a device with a layout but without allowed parameter values
+        case["gp"] = rng.choice(["none", "empty"])
     spec = case_spec(case)
     amps = SQ_VARIANTS[sqk][1]
     if comp == "Xstrict":
@@ -300,12 +364,14 @@ def gen_x_case(rng, nprng, thorough=False):
 
 
 def case_spec(case):
+    if case.get("gp") in ("none", "empty"):
+        return hw12.x_spec(case["N"], None, None if case["gp"] == "none" else {}, compiler=case["complist"], modes=case["modes"])
     return hw12.x_spec(case["N"], SQ_VARIANTS[case["sq"]][0], PH_VARIANTS[case["ph"]], compiler=case["complist"],
                        modes=case["modes"])
 
 
 # ====================================================================== oracle (X series)
-DOCUMENTED_VALUE_ERRORS = ("has invalid value", "not a valid parameter for this device")
+DOCUMENTED_VALUE_ERRORS = ("has invalid value", "not a valid parameter for this device", "cannot be represented in Blackbird")
 
 
 def classify_exception(e, CircuitError):
@@ -316,11 +382,51 @@ def classify_exception(e, CircuitError):
     return None
 
 
+def prog_snapshot(prog):
+    """content of a program, deep enough to see in-place edits of shared operations / commands / options"""
+    out = []
+    for c in prog.circuit:
+        ps = []
+        for x in c.op.p:
+            ps.append(repr(np.asarray(x).tolist()) if isinstance(x, np.ndarray) else repr(x))
+        out.append((type(c.op).__name__, tuple(r.ind for r in c.reg), tuple(ps), bool(getattr(c.op, "dagger", False)),
+                    repr(getattr(c.op, "select", None)), repr(getattr(c.op, "dark_counts", None)), id(c.op)))
+    return out, [r.ind for r in prog.register], (repr(prog.tdm_params) if hasattr(prog, "tdm_params") else None)
+
+
+def x_outcome(sf, prog, dev, comp):
+    """('err', class) or ('ok', skeleton with rounded parameters, options of the final measurement, compiled program)"""
+    from strawberryfields.program_utils import CircuitError
+    reset_compilers(sf)
+    try:
+        compiled = prog.compile(device=dev, compiler=comp)
+    except Exception as e:  # noqa: BLE001
+        return ("err", classify_exception(e, CircuitError) or f"{type(e).__name__}: {str(e)[:120]}", None, e)
+    finally:
+        reset_compilers(sf)
+    sk = hw12.circuit_skeleton(compiled)
+    key = [(c, tuple(m), tuple(round(x, 9) if isinstance(x, float) else x for x in p)) for c, m, p in sk]
+    last = compiled.circuit[-1].op
+    return ("ok", key, (repr(getattr(last, "select", None)), repr(getattr(last, "dark_counts", None))), compiled)
+
+
 def x_oracle(ctx, sf, case, count=True):
+    try:
+        _x_oracle(ctx, sf, case, count)
+    except Exception as e:  # noqa: BLE001   (an exception of the code under test inside the oracle is a finding with an input)
+        import traceback
+        ctx.fail(f"x-oracle-crash:{type(e).__name__}", f"{case['comp']}: {type(e).__name__} {str(e)[:150]} at {traceback.format_exc().splitlines()[-3].strip()[:120]}",
+                 dict(case))
+
+
+def _x_oracle(ctx, sf, case, count=True):
     from strawberryfields.program_utils import CircuitError, validate_gate_parameters
+    import strawberryfields.ops as ops
     N, comp, desc = case["N"], case["comp"], case["desc"]
     n = 2 * N
+    nn = desc["n"]
     spec = case_spec(case)
+    spec0 = copy.deepcopy(spec)
     rp = {k: v for k, v in case.items()}
     ctx.oracle_cases += 1
     try:
@@ -329,24 +435,31 @@ def x_oracle(ctx, sf, case, count=True):
     except Exception as e:  # noqa: BLE001  (generator made something the front end refuses: not a compile matter)
         ctx.tally(f"x:unbuildable:{type(e).__name__}")
         return
-    reset_compilers(sf)
+    snap0 = prog_snapshot(prog)
     nz = any(o["cls"] in ("S2gate", "Sgate") and abs(o["pars"][0]) > 0 for o in desc["ops"])
-    try:
-        compiled = prog.compile(device=dev, compiler=comp)
-    except Exception as e:  # noqa: BLE001
-        cl = classify_exception(e, CircuitError)
+    res = x_outcome(sf, prog, dev, comp)
+    # ---- inputs untouched; same call again gives the same outcome (objects reused: program, device, shared operations)
+    if prog_snapshot(prog) != snap0:
+        ctx.fail(f"x-input-mutated:{comp}", f"{comp}: compiling changed the source program in place", rp)
+    if spec != spec0 or dev._spec != spec0:
+        ctx.fail(f"x-spec-mutated:{comp}", f"{comp}: compiling changed the device specification in place", rp)
+    if case.get("repeat", True) and (len(desc["ops"]) % 3 == 0 or not count):
+        res2 = x_outcome(sf, prog, dev, comp)
+        if res[:3] != res2[:3]:
+            ctx.fail(f"x-not-repeatable:{comp}", f"{comp}: compiling the same program for the same device twice gives {res[0]}/{res[1] if res[0] == 'err' else ''} "
+                     f"then {res2[0]}/{res2[1] if res2[0] == 'err' else ''}", rp)
+    if res[0] == "err":
         if count:
             ctx.count(f"x:{comp}:rejected", dict(c=case), len(desc["ops"]) >= 3)
             for k in case.get("kinds", []):
                 ctx.tally(f"x:kind:{k}")
-        if cl is None:
-            ctx.fail(f"x-compile-raises:{type(e).__name__}:{comp}",
-                     f"{comp} on {n} modes raised {type(e).__name__}: {str(e)[:120]} (neither a circuit error nor a compiled circuit)", rp)
+        if res[1] not in ("CircuitError", "ValueError(range)"):
+            ctx.fail(f"x-compile-raises:{type(res[3]).__name__}:{comp}",
+                     f"{comp} on {n} modes raised {res[1]} (neither a circuit error nor a compiled circuit)", rp)
         else:
-            ctx.tally(f"x:{comp}:{cl}")
+            ctx.tally(f"x:{comp}:{res[1]}")
         return
-    finally:
-        reset_compilers(sf)
+    compiled = res[3]
     if count:
         ctx.count(f"x:{comp}:accepted", dict(c=case), nz, sample=dict(N=N, comp=comp, kinds=case.get("kinds"), nops=len(desc["ops"])))
         for k in case.get("kinds", []):
@@ -358,15 +471,27 @@ def x_oracle(ctx, sf, case, count=True):
         sig = "x-out-of-range" if "outside" in reason else "x-nonconforming"
         ctx.fail(f"{sig}:{comp}", f"{comp} accepted a program on {n} modes but the compiled circuit does not fit the device: {reason}", rp)
         return
-    if n > case["modes"]:
-        ctx.fail(f"x-too-many-modes:{comp}", f"{n}-mode program accepted for a {case['modes']}-mode device", rp)
+    if nn > case["modes"]:
+        ctx.fail(f"x-too-many-modes:{comp}", f"{nn}-mode program accepted for a {case['modes']}-mode device", rp)
     try:
-        validate_gate_parameters(compiled, dev)
+        validate_gate_parameters(compiled, dev, validate_values=bool(spec["gate_parameters"]))
     except Exception as e:  # noqa: BLE001
         ctx.fail(f"x-revalidate:{comp}", f"validate_gate_parameters rejects the circuit {comp} returned: {type(e).__name__} {str(e)[:100]}", rp)
+    # measurement options (post-selection, dark counts) belong to the experiment
+    want_sel, want_dark = {}, {}
+    for o in desc["ops"]:
+        if o["cls"] == "MeasureFock":
+            want_sel.update(zip(o["regs"], o.get("select") or []))
+            want_dark.update(zip(o["regs"], o.get("dark") or []))
+    last = compiled.circuit[-1]
+    got_sel = dict(zip([r.ind for r in last.reg], last.op.select or []))
+    got_dark = dict(zip([r.ind for r in last.reg], last.op.dark_counts or []))
+    if got_sel != want_sel or {k: v for k, v in got_dark.items() if v} != {k: v for k, v in want_dark.items() if v}:
+        ctx.fail(f"x-measurement-options:{comp}", f"{comp}: source measures with select={want_sel} dark_counts={want_dark}, "
+                 f"compiled circuit with select={got_sel} dark_counts={got_dark}", rp)
     # (c) same photon statistics
-    src = ref_state(n, desc_oplist(desc))
-    out = ref_state(n, [(c, m, p) for c, m, p in sk])
+    src = ref_state(nn, desc_oplist(desc))
+    out = ref_state(nn, [(c, m, p) for c, m, p in sk])
     _, Ns, Ms = src.alpha_N_M()
     _, Nc, Mc = out.alpha_N_M()
     scale = max(1.0, float(np.max(np.abs(Ns))), float(np.max(np.abs(Ms))))
@@ -379,7 +504,7 @@ def x_oracle(ctx, sf, case, count=True):
         bad = d > 1e-6 * scale
         if not bad and scale < 6:
             import random as _r
-            pats = hw12.rand_patterns(_r.Random(len(desc["ops"]) * 7919 + N), n, 5 if n <= 8 else 3, max_total=4 if n <= 8 else 2)
+            pats = hw12.rand_patterns(_r.Random(len(desc["ops"]) * 7919 + N), nn, 5 if nn <= 8 else 3, max_total=4 if nn <= 8 else 2)
             ps, pc = hw12.fock_probs(src.V, pats, 2.0), hw12.fock_probs(out.V, pats, 2.0)
             d = float(np.max(np.abs(ps - pc)))
             bad = d > 1e-7
@@ -901,19 +1026,20 @@ def corr_merge(ctx, sf):
         with prog.context as q:
             for k, (i, r, phi) in enumerate(s2):
                 b = i + N if not (wrong and k == 0) else (i + 1) % N + N
-                ops.S2gate(r, phi) | (q[i], q[b])
+                g = ops.S2gate(r, phi)
+                (g.H if rng.random() < 0.2 else g) | (q[i], q[b])
             ops.MeasureFock() | tuple(q)
         captured = []
 
         def spy(seq, pred, _c=captured):
             A, B, C = orig(seq, pred)
             if not _c and B and all(isinstance(c.op, ops.S2gate) for c in B):
-                _c.append([[c.reg[0].ind, c.reg[1].ind, float(c.op.p[0]), float(c.op.p[1])] for c in B])
+                _c.append([[c.reg[0].ind, c.reg[1].ind, float(c.op.p[0]), float(c.op.p[1]), bool(c.op.dagger)] for c in B])
             return A, B, C
         xu.group_operations = spy
         try:
             out = xu.Xunitary().compile(list(prog.circuit), prog.register)
-            impl = dict(ok=[[c.reg[0].ind, c.reg[1].ind, F(c.op.p[0]), F(c.op.p[1])] for c in out if isinstance(c.op, ops.S2gate)])
+            impl = dict(ok=[[c.reg[0].ind, c.reg[1].ind, F(c.op.p[0]), F(c.op.p[1]), bool(c.op.dagger)] for c in out if isinstance(c.op, ops.S2gate)])
         except CircuitError:
             impl = dict(err="CircuitError")
         except Exception as e:  # noqa: BLE001
@@ -933,7 +1059,7 @@ def corr_merge(ctx, sf):
         keys = [b[0] for b in B]
         ctx.count("corr:s2merge", case, len({k for k in keys if keys.count(k) > 1}) >= 2)
         ctx.tally("corr:s2merge:" + ("ok" if "ok" in impl else impl["err"]))
-        reqs.append(dict(op="hw.s2merge", half=N, B=[[b[0], b[1], F(b[2]), F(b[3])] for b in B], missing=missing))
+        reqs.append(dict(op="hw.s2merge", half=N, B=[[b[0], b[1], F(b[2]), F(b[3]), b[4]] for b in B], missing=missing))
         pend.append(("Xunitary S2 merge", case, impl))
     return reqs, pend
 
